@@ -206,6 +206,19 @@ CHECKS = {
     note="Real TCP: coalescing of back-to-back writes on loopback is likely but not guaranteed; deadlines are judged with 2 s slack.",
     technique="TLA+ segmentation/handover model (design, deviations) + TLC validation of recorded real TCP logins",
     design="4 C15"),
+ "C13": dict(
+    level="model_checking",
+    text="Agwpe.tla models the inbound demux pipeline (TNC read loop, root/port/connection demux goroutines, non-blocking Enqueue into "
+         "capacity-1 channels, buffered data channel, Conn.Read): TLC proves InOrderNoLossNoDup for a blocking Enqueue, finds loss for "
+         "the implementation's DropWhenFull and computes the loss-free envelope (1 frame). Binding: a simulated AGWPE TNC on loopback "
+         "TCP with its own header lexer; schedules run in child processes: writes on ports 0..3 with/without digipeaters, refusals, "
+         "inbound frames with TCP segmentation (mid-header, mid-data, byte-wise, coalesced), reader buffers 1..4096, foreign "
+         "callsigns/ports/kinds, the accept path, bursts, malformed frames; AgwpePropsTrace.tla judges stream equality, frame "
+         "well-formedness, payload concatenation, the X, C/v, Y, d exchanges, API results and crashes.",
+    note="Internal goroutine interleavings of the library are not controlled (no gates); paced schedules stay inside the envelope. "
+         "Frame loss on bursts is a recorded known finding (design-level flow control). Real-time polls make each schedule cost seconds.",
+    technique="TLA+ pipeline model (design, envelope) + simulated TNC schedules on real code judged by TLC trace validation",
+    design="4 C13"),
 }
 
 NOT_YET = "check not built yet (work in progress; see DESIGN.md section 8 for the build order)"
